@@ -60,4 +60,25 @@ def conv2dLoop (grp : Nat → Nat) (x w : Arr Int) (bias : Option (Arr Int)) (H 
       padRead2 x H W pH pW n (grp o * Cg + c) (i * sH + kh * dH) (j * sW + kw * dW) * w.get [o, c, kh, kw])))
     + (match bias with | none => 0 | some b => b.get [o])
 
+/-! ### groups of a reduction (softmax / normalisation statistics) -/
+
+/-- all multi-indices of `s` that agree with `i` on every axis `k` where `p (o + position)` is false — the reduced
+    axes run over their whole extent, the others stay fixed — in row-major (C) order -/
+def groupL (p : Nat → Bool) : Nat → Shape → Idx → List Idx
+  | _, [], _ => [[]]
+  | o, a :: t, i0 :: it =>
+    if p o then (List.range a).flatMap fun k => (groupL p (o + 1) t it).map (k :: ·)
+    else (groupL p (o + 1) t it).map (i0 :: ·)
+  | _, _ :: _, [] => []
+
+/-- the line through `i` along axis `ax`: `i` with coordinate `ax` running over `0 .. n−1` (`n` the extent of that axis) -/
+def lineOf (s : Shape) (ax : Nat) (i : Idx) : List Idx :=
+  match s[ax]? with
+  | some n => (List.range n).map fun k => i.set ax k
+  | none => []
+
+/-- the block of `i` over the trailing axes `m ..`: the first `m` coordinates of `i` followed by every index of the
+    trailing extents, row-major -/
+def blockOf (s : Shape) (m : Nat) (i : Idx) : List Idx := (allIdx (s.drop m)).map fun r => i.take m ++ r
+
 end NmVerif.NN
